@@ -144,6 +144,7 @@ func (s *scenario) recERS(ns, edsName, rsName string, faults map[int]string) {
 		w.freshReconcilers()
 		s.installClock()
 		in["faulted"] = true
+		in["crashed"] = true
 		s.ops = append(s.ops, fmt.Sprintf("recERS %s/%s: process stopped during this reconcile", ns, rsName))
 	}
 	s.steps = append(s.steps, stepJ{"ers_reconcile", fmt.Sprintf("recERS %s/%s", ns, rsName), in, out})
